@@ -24,57 +24,58 @@ CONFIGS = {
     'quick': [
         # name, constants
         ('N1', dict(N=1, Kinds={"ea", "eb"}, RootCfg="R1", Axes=set(AXES),
-                    Tests={"node()", "*", "a", "text()"}, Preds={"1", "last()"}, ParenPreds={"1"}, Preds2=set(), DocSibs=False)),
+                    Tests={"node()", "*", "a", "text()"}, Preds={"1", "last()"}, ParenPreds={"1"}, Preds2=set(), DocSibs=False, NsTests=set())),
         ('N2', dict(N=2, Kinds={"ea", "eb", "t", "c", "p", "xa"}, RootCfg="R1", Axes=set(AXES),
                     Tests={"node()", "*", "a", "b", "text()", "comment()", "processing-instruction()"},
-                    Preds={"1", "2", "last()", "b"}, ParenPreds={"1", "2", "last()"}, Preds2=set(), DocSibs=False)),
+                    Preds={"1", "2", "last()", "b"}, ParenPreds={"1", "2", "last()"}, Preds2=set(), DocSibs=False, NsTests=set())),
         ('N3', dict(N=3, Kinds={"ea", "eb", "t", "c", "p", "xa"}, RootCfg="R1", Axes=set(AXES),
                     Tests={"node()", "*", "a", "b", "text()", "comment()", "processing-instruction()"},
-                    Preds={"1", "2", "last()", "b"}, ParenPreds={"1", "2", "last()"}, Preds2=set(), DocSibs=False)),
+                    Preds={"1", "2", "last()", "b"}, ParenPreds={"1", "2", "last()"}, Preds2=set(), DocSibs=False, NsTests=set())),
         ('N3-R2', dict(N=3, Kinds={"ea", "eb", "t", "xa"}, RootCfg="R2", Axes=set(AXES),
-                       Tests={"node()", "*", "a", "text()"}, Preds={"1", "last()"}, ParenPreds={"last()"}, Preds2=set(), DocSibs=False)),
+                       Tests={"node()", "*", "a", "text()"}, Preds={"1", "last()"}, ParenPreds={"last()"}, Preds2=set(), DocSibs=False, NsTests=set())),
         ('N3-R3', dict(N=3, Kinds={"ea", "eb", "t", "xa"}, RootCfg="R3", Axes=set(AXES),
-                       Tests={"node()", "*", "a", "text()"}, Preds={"1", "last()"}, ParenPreds={"last()"}, Preds2=set(), DocSibs=False)),
+                       Tests={"node()", "*", "a", "text()"}, Preds={"1", "last()"}, ParenPreds={"last()"}, Preds2=set(), DocSibs=False, NsTests=set())),
         ('N4', dict(N=4, Kinds={"ea", "eb", "t"}, RootCfg="R1", Axes=set(AXES),
-                    Tests={"node()", "*", "a", "text()"}, Preds={"2"}, ParenPreds={"2"}, Preds2=set(), DocSibs=False)),
+                    Tests={"node()", "*", "a", "text()"}, Preds={"2"}, ParenPreds={"2"}, Preds2=set(), DocSibs=False, NsTests=set())),
         # namespaced names: prefix:name, prefix:*, *:name tests (urn:x is a string prefix of urn:x-y)
         ('N3-NS', dict(N=3, Kinds={"ea", "en", "em", "xn"}, RootCfg="R1",
                        Axes={"self", "child", "attribute", "parent", "descendant", "descendant-or-self"},
-                       Tests={"node()", "*", "a", "p:a", "p:*", "q:*", "*:a"}, Preds=set(), ParenPreds=set(), Preds2=set(), DocSibs=False)),
+                       Tests={"node()", "*", "a", "p:a", "p:*", "q:*", "*:a"}, Preds=set(), ParenPreds=set(), Preds2=set(), DocSibs=False,
+                       NsTests={"*", "p", "xml", "node()"})),
         # lxml documents with comments / PIs before and after the document element
         ('N3-DS', dict(N=3, Kinds={"ea", "eb", "c", "p", "t"}, RootCfg="R1", Axes=set(AXES),
                        Tests={"node()", "*", "comment()"}, Preds={"1"},
-                       ParenPreds=set(), Preds2=set(), DocSibs=True)),
+                       ParenPreds=set(), Preds2=set(), DocSibs=True, NsTests=set())),
         # steps with TWO predicates: the second numbers the survivors of the first along the axis
         ('N3-P2', dict(N=3, Kinds={"ea", "eb", "t"}, RootCfg="R1",
                        Axes={"child", "descendant", "ancestor", "ancestor-or-self", "preceding", "preceding-sibling",
                              "following", "following-sibling"},
-                       Tests={"node()", "*"}, Preds=set(), ParenPreds=set(), Preds2={"position()<3", "b"}, DocSibs=False)),
+                       Tests={"node()", "*"}, Preds=set(), ParenPreds=set(), Preds2={"position()<3", "b"}, DocSibs=False, NsTests=set())),
     ],
     'thorough': [
         ('N3-full', dict(N=3, Kinds={"ea", "eb", "t", "c", "p", "xa", "xc"}, RootCfg="R1", Axes=set(AXES),
                          Tests={"node()", "*", "a", "b", "c", "text()", "comment()", "processing-instruction()"},
                          Preds={"1", "last()", "position()<2", "@a", "not(b)"},
-                         ParenPreds={"1", "2", "last()", "b"}, Preds2=set(), DocSibs=False)),
+                         ParenPreds={"1", "2", "last()", "b"}, Preds2=set(), DocSibs=False, NsTests=set())),
         ('N4-R1', dict(N=4, Kinds={"ea", "eb", "t", "xa"}, RootCfg="R1", Axes=set(AXES),
                        Tests={"node()", "*", "a", "text()"},
-                       Preds={"2", "last()"}, ParenPreds={"last()"}, Preds2=set(), DocSibs=False)),
+                       Preds={"2", "last()"}, ParenPreds={"last()"}, Preds2=set(), DocSibs=False, NsTests=set())),
         ('N4-R2', dict(N=4, Kinds={"ea", "eb", "t", "xa"}, RootCfg="R2", Axes=set(AXES),
-                       Tests={"node()", "*", "a", "text()"}, Preds={"1", "2", "last()"}, ParenPreds={"last()"}, Preds2=set(), DocSibs=False)),
+                       Tests={"node()", "*", "a", "text()"}, Preds={"1", "2", "last()"}, ParenPreds={"last()"}, Preds2=set(), DocSibs=False, NsTests=set())),
         ('N4-R3', dict(N=4, Kinds={"ea", "eb", "t", "xa"}, RootCfg="R3", Axes=set(AXES),
-                       Tests={"node()", "*", "a", "text()"}, Preds={"1", "2", "last()"}, ParenPreds={"last()"}, Preds2=set(), DocSibs=False)),
+                       Tests={"node()", "*", "a", "text()"}, Preds={"1", "2", "last()"}, ParenPreds={"last()"}, Preds2=set(), DocSibs=False, NsTests=set())),
         ('N4-P2', dict(N=4, Kinds={"ea", "eb", "t"}, RootCfg="R1",
                        Axes={"child", "descendant", "ancestor", "ancestor-or-self", "preceding", "preceding-sibling",
                              "following", "following-sibling"},
-                       Tests={"node()", "*"}, Preds=set(), ParenPreds=set(), Preds2={"position()<3", "b"}, DocSibs=False)),
+                       Tests={"node()", "*"}, Preds=set(), ParenPreds=set(), Preds2={"position()<3", "b"}, DocSibs=False, NsTests=set())),
         ('N3-NS-full', dict(N=3, Kinds={"ea", "en", "em", "xn", "xa", "t"}, RootCfg="R1", Axes=set(AXES),
                             Tests={"node()", "*", "a", "p:a", "p:*", "q:a", "q:*", "*:a"}, Preds={"1", "last()"},
-                            ParenPreds=set(), Preds2=set(), DocSibs=False)),
+                            ParenPreds=set(), Preds2=set(), DocSibs=False, NsTests=set())),
         ('N4-DS', dict(N=4, Kinds={"ea", "eb", "c", "t"}, RootCfg="R1", Axes=set(AXES),
                        Tests={"node()", "*", "comment()"}, Preds={"1"},
-                       ParenPreds=set(), Preds2=set(), DocSibs=True)),
+                       ParenPreds=set(), Preds2=set(), DocSibs=True, NsTests=set())),
         ('N5', dict(N=5, Kinds={"ea", "eb", "t"}, RootCfg="R1", Axes=set(AXES),
-                    Tests={"node()", "*", "a"}, Preds={"last()"}, ParenPreds=set(), Preds2=set(), DocSibs=False)),
+                    Tests={"node()", "*", "a"}, Preds={"last()"}, ParenPreds=set(), Preds2=set(), DocSibs=False, NsTests=set())),
     ],
 }
 
@@ -91,7 +92,15 @@ def _parsers():
     return PARSERS
 
 
+XML_NS = 'http://www.w3.org/XML/1998/namespace'
+NS_URI = dict(NS, xml=XML_NS)
+
+
 def step_text(action: str, args: tuple) -> str:
+    if action == 'NsStep':
+        return f'namespace::{args[0]}'
+    if action == 'NsParent':
+        return f'namespace::{args[0]}/parent::node()'
     if action in ('Step', 'DSlash'):
         return f'{args[0]}::{args[1]}'
     if action in ('StepPred', 'DSlashPred'):
@@ -137,7 +146,7 @@ def extend(prefix: str, action: str, args: tuple, root_cfg: str, last: str | Non
     for pre in alts:
         if action == 'Paren':
             out.append(f'({pre or "."})[{args[0]}]')
-        elif action in ('Step', 'StepPred', 'StepPred2'):
+        elif action in ('Step', 'StepPred', 'StepPred2', 'NsStep', 'NsParent'):
             if pre == '':
                 out += [s, './' + s]
             elif pre == '/':
@@ -188,12 +197,12 @@ def ep_eval(doc: Doc, root_cfg: str, version: str, text: str, mode: str):
             sel = get_selector(version, text)
             if isinstance(sel, Exception):
                 raise sel
-            res = sel.select(root, **kw)
+            res = sel.select(root, namespaces=NS, **kw)
         elif mode == 'selector_iter':
             sel = get_selector(version, text)
             if isinstance(sel, Exception):
                 raise sel
-            res = list(sel.iter_select(root, **kw))
+            res = list(sel.iter_select(root, namespaces=NS, **kw))
         elif mode == 'select':
             res = elementpath.select(root, text, namespaces=NS, parser=_parsers()[version], **kw)
         else:
@@ -204,6 +213,22 @@ def ep_eval(doc: Doc, root_cfg: str, version: str, text: str, mode: str):
     if not isinstance(res, list):
         res = [res]
     return doc.project(res)
+
+
+def ns_eval(doc: Doc, root_cfg: str, version: str, text: str):
+    """namespace axis results through the public API, sorted: URI strings (2.0+) or (prefix, uri) pairs (1.0)"""
+    root, kw = (doc.tree, {}) if root_cfg == 'R1' else (doc.root, {}) if root_cfg in ('R2', 'R1elem') else (doc.root, {'fragment': True})
+    try:
+        sel = get_selector(version, text)
+        if isinstance(sel, Exception):
+            raise sel
+        res = sel.select(root, namespaces=NS, **kw)     # (xml.etree has no declarations: the caller's map is in scope)
+    except Exception as e:
+        return ('err', type(e).__name__, getattr(e, 'code', None))
+    if not isinstance(res, list):
+        res = [res]
+    return sorted((tuple(x) if isinstance(x, (tuple, list)) else x) for x in res if isinstance(x, (str, tuple, list))) \
+        if all(isinstance(x, (str, tuple, list)) for x in res) else ('err', 'non-namespace item', None)
 
 
 def lx_eval(doc: Doc, root_cfg: str, text: str):
@@ -244,6 +269,42 @@ def tree_worker(job):
         pre = prefix[sid]
         src = states[sid]
         for (dst, action, args) in out_edges.get(sid, ()):
+            if action == 'NsStep':
+                # observation: one group of namespace nodes per ELEMENT of the current set (spec: NsObservation)
+                stats['transitions'] += 1
+                t = args[0]
+                prefixes = ['xml', 'p', 'q'] if t in ('*', 'node()') else [t]
+                n_elems = sum(1 for n in src if n and kind[n - 1] in ('ea', 'eb', 'en', 'em'))
+                exp_pairs = sorted((pf, NS_URI[pf]) for pf in prefixes) * n_elems
+                exp_pairs.sort()
+                exp_uris = sorted(u for pf, u in exp_pairs)
+                for text in extend(pre, action, args, root_cfg):
+                    if root_cfg == 'R1' and text.startswith('/'):
+                        try:
+                            lres = sorted(tuple(x) for x in docs['lxml'].tree.xpath(text, namespaces=NS))
+                        except Exception as e:
+                            lres = ('err', type(e).__name__)
+                        stats['lx_evals'] += 1
+                        if lres != exp_pairs and t != 'node()':
+                            oracle_disagreements.append(dict(tree=[parent, kind], root=root_cfg, path=text,
+                                                             spec=exp_pairs, libxml2=lres))
+                    for v in versions:
+                        for lib in libs:
+                            obs = ns_eval(docs[lib], 'R1elem' if lib == 'lxml-elem' else root_cfg, v, text)
+                            stats['evaluations'] += 1
+                            want = exp_pairs if v == '1.0' else exp_uris
+                            if obs != want:
+                                feat = dict(action='NsStep', axis='namespace', test=t, pred=None, ctx_kinds=kinds_of(kind, src),
+                                            ctx_multi=len(src) > 1, ctx_has_attr=False, ctx_has_doc=0 in src,
+                                            outcome=('error' if obs and obs[0] == 'err' else 'missing' if len(obs) < len(want) else 'extra' if len(obs) > len(want) else 'wrong'),
+                                            parser=v, root=root_cfg, spelling='absolute' if text.startswith('/') else 'relative')
+                                key = tuple(sorted((k, str(x)) for k, x in feat.items()))
+                                if key in failures:
+                                    failures[key][1] += 1
+                                else:
+                                    failures[key] = [feat, 1, dict(tree=[parent, kind], root=root_cfg, path=text, parser=v, lib=lib,
+                                                                   mode='ns', xml=docs[lib].xml()), want, obs]
+                continue
             if action == 'Root' and (pre != '' or root_cfg != 'R2'):
                 stats['skipped_root'] = stats.get('skipped_root', 0) + 1
                 continue    # a leading "/" can only be rendered in front of an empty prefix
@@ -290,12 +351,12 @@ def tree_worker(job):
                                     'dup' if len(set(map(str, obs))) < len(obs) and set(map(str, obs)) == set(map(str, expected)) else
                                     'missing' if set(map(str, obs)) < set(map(str, expected)) else
                                     'extra' if set(map(str, obs)) > set(map(str, expected)) else 'wrong')
-                                feat = dict(action=action, axis=args[0] if action not in ('Paren', 'Root') else None,
-                                            test=args[1] if action not in ('Paren', 'Root') else None,
+                                feat = dict(action=action, axis=('namespace' if action == 'NsParent' else args[0]) if action not in ('Paren', 'Root') else None,
+                                            test=(args[0] if action == 'NsParent' else args[1]) if action not in ('Paren', 'Root') else None,
                                             pred=(args[2] if action.endswith(('Pred', 'Pred2')) else args[0] if action == 'Paren' else None),
                                             pred2=(args[3] if action == 'StepPred2' else None),
                                             ctx_kinds=kinds_of(kind, src), ctx_multi=len(src) > 1,
-                                            ctx_has_attr=any(n and kind[n - 1] in ('xa', 'xc') for n in src),
+                                            ctx_has_attr=any(n and kind[n - 1] in ('xa', 'xc', 'xn') for n in src),
                                             ctx_has_doc=0 in src,
                                             outcome=outcome, parser=v, root=root_cfg,
                                             spelling=('abbrev' if ti >= n_canon else
@@ -450,7 +511,7 @@ def run_traces(chk: core.Check) -> None:
             for r in recs:
                 f.write(json.dumps(dict(id=r['id'], p=r['p'], k=r['k'], steps=r['steps'], obs=r['obs'])) + '\n')
         consts = dict(N=n, Kinds={"ea", "eb", "t", "c", "p", "xa", "xc"}, RootCfg='R1', Axes=set(AXES),
-                      Tests=set(ALL_TESTS), Preds=set(ALL_PREDS), ParenPreds={"1", "2", "last()", "b"}, Preds2=set(), DocSibs=False)
+                      Tests=set(ALL_TESTS), Preds=set(ALL_PREDS), ParenPreds={"1", "2", "last()", "b"}, Preds2=set(), DocSibs=False, NsTests=set())
         cfg = tla.cfg_text(consts, spec='TraceSpec', invariants=['Report'], postcondition='TraceAccepted')
         r = tla.require_ok(tla.run_tlc('TracePaths', cfg, wd, workers=1, env={'TRACE_FILE': tf}, timeout=3000),
                            f'TracePaths/N{n}', min_distinct=2 * len(recs))
@@ -486,6 +547,8 @@ def replay_case(case: dict) -> list:
     """Re-evaluate one recorded case on the working tree; returns [] if it now agrees."""
     parent, kind = tuple(case['tree'][0]), tuple(case['tree'][1])
     doc = Doc(parent, kind, 'lxml' if case['lib'] == 'lxml-elem' else case['lib'])
+    if case['mode'] == 'ns':
+        return ns_eval(doc, 'R1elem' if case['lib'] == 'lxml-elem' else case['root'], case['parser'], case['path'])
     return ep_eval(doc, 'R1elem' if case['lib'] == 'lxml-elem' else case['root'], case['parser'], case['path'], case['mode'])
 
 
